@@ -29,6 +29,40 @@ type Emitted struct {
 	Decls    []*ODecl
 	Response map[string]string // operation function -> response type reference
 	Getters  map[string][][2]string
+	// Dispatch: Go interface name -> GraphQL __typename -> implementation struct, read from the
+	// switch of the generated __unmarshal<Interface> helper
+	Dispatch map[string]map[string]string
+	// Premarshal: struct name -> Go field name -> JSON key, from the __premarshal<Struct> type
+	Premarshal map[string]map[string]string
+}
+
+func readDispatch(fd *ast.FuncDecl) map[string]string {
+	out := map[string]string{}
+	ast.Inspect(fd.Body, func(n ast.Node) bool {
+		cc, ok := n.(*ast.CaseClause)
+		if !ok || len(cc.List) != 1 {
+			return true
+		}
+		bl, ok := cc.List[0].(*ast.BasicLit)
+		if !ok {
+			return true
+		}
+		tn, _ := strconv.Unquote(bl.Value)
+		for _, st := range cc.Body {
+			ast.Inspect(st, func(m ast.Node) bool {
+				if ce, ok := m.(*ast.CallExpr); ok {
+					if id, ok := ce.Fun.(*ast.Ident); ok && id.Name == "new" && len(ce.Args) == 1 {
+						if a, ok := ce.Args[0].(*ast.Ident); ok {
+							out[tn] = a.Name
+						}
+					}
+				}
+				return true
+			})
+		}
+		return true
+	})
+	return out
 }
 
 type printer struct{ imports map[string]string }
@@ -82,7 +116,7 @@ func ReadEmitted(src []byte, opNames map[string]bool) (*Emitted, error) {
 		}
 		p.imports[alias] = path
 	}
-	em := &Emitted{Response: map[string]string{}, Getters: map[string][][2]string{}}
+	em := &Emitted{Response: map[string]string{}, Getters: map[string][][2]string{}, Dispatch: map[string]map[string]string{}, Premarshal: map[string]map[string]string{}}
 	byName := map[string]*ODecl{}
 	allVars := map[string]bool{}
 	consts := map[string][][2]string{}
@@ -96,6 +130,20 @@ func ReadEmitted(src []byte, opNames map[string]bool) (*Emitted, error) {
 				case *ast.TypeSpec:
 					n := s.Name.Name
 					if strings.HasPrefix(n, "__premarshal") {
+						if st, ok := s.Type.(*ast.StructType); ok {
+							m := map[string]string{}
+							for _, fl := range st.Fields.List {
+								tag := ""
+								if fl.Tag != nil {
+									raw, _ := strconv.Unquote(fl.Tag.Value)
+									tag = strings.Split(reflect.StructTag(raw).Get("json"), ",")[0]
+								}
+								for _, nm := range fl.Names {
+									m[nm.Name] = tag
+								}
+							}
+							em.Premarshal[strings.TrimPrefix(n, "__premarshal")] = m
+						}
 						continue
 					}
 					if strings.HasSuffix(n, "WsResponse") {
@@ -177,6 +225,9 @@ func ReadEmitted(src []byte, opNames map[string]bool) (*Emitted, error) {
 					em.Getters[recv] = append(em.Getters[recv], [2]string{d.Name.Name, p.expr(d.Type.Results.List[0].Type)})
 				}
 				continue
+			}
+			if d.Recv == nil && strings.HasPrefix(d.Name.Name, "__unmarshal") && d.Body != nil {
+				em.Dispatch[strings.TrimPrefix(d.Name.Name, "__unmarshal")] = readDispatch(d)
 			}
 			if d.Recv == nil && opNames[d.Name.Name] && d.Type.Results != nil && len(d.Type.Results.List) > 0 {
 				em.Response[d.Name.Name] = strings.TrimPrefix(p.expr(d.Type.Results.List[0].Type), "*")
